@@ -329,3 +329,111 @@ Section ByKey.
     - intros ->. rewrite klt_irrefl. split; reflexivity.
   Qed.
 End ByKey.
+
+(* a comparator with a tie-break: first [lt1], and between elements that [lt1] does not order,
+   [lt2] (Go: `if o := cmp1(a, b); o != Equal { return o }; return cmp2(a, b)`) *)
+Section Lex.
+  Context {A : Type} (lt1 lt2 : A -> A -> bool).
+  Hypothesis lt1_irrefl : forall a, lt1 a a = false.
+  Hypothesis lt1_trans : forall a b c, lt1 a b = true -> lt1 b c = true -> lt1 a c = true.
+  Hypothesis lt1_cotrans : forall a b c, lt1 a b = true -> lt1 a c = true \/ lt1 c b = true.
+  Hypothesis lt2_irrefl : forall a, lt2 a a = false.
+  Hypothesis lt2_trans : forall a b c, lt2 a b = true -> lt2 b c = true -> lt2 a c = true.
+  Hypothesis lt2_cotrans : forall a b c, lt2 a b = true -> lt2 a c = true \/ lt2 c b = true.
+
+  Definition lex (a b : A) : bool := lt1 a b || (negb (lt1 b a) && lt2 a b).
+
+  Lemma lex_spec a b :
+    lex a b = true <-> lt1 a b = true \/ (lt1 a b = false /\ lt1 b a = false /\ lt2 a b = true).
+  Proof.
+    unfold lex. destruct (lt1 a b) eqn:E1; cbn; [split; auto|].
+    rewrite andb_true_iff, negb_true_iff. split.
+    - intros [H1 H2]. right. auto.
+    - intros [H|[_ [H1 H2]]]; [discriminate|auto].
+  Qed.
+
+  Lemma lex_irrefl a : lex a a = false.
+  Proof. unfold lex. rewrite lt1_irrefl, lt2_irrefl. reflexivity. Qed.
+
+  Lemma lex_trans a b c : lex a b = true -> lex b c = true -> lex a c = true.
+  Proof.
+    rewrite !lex_spec. intros [H1|[H1 [H1' H1'']]] [H2|[H2 [H2' H2'']]].
+    - left. eapply lt1_trans; eassumption.
+    - left. destruct (lt1_cotrans _ _ c H1) as [H|H]; [exact H|congruence].
+    - left. destruct (lt1_cotrans _ _ a H2) as [H|H]; [congruence|exact H].
+    - destruct (lt1 a c) eqn:E; [left; reflexivity|]. right. split; [reflexivity|]. split.
+      + destruct (lt1 c a) eqn:E'; [|reflexivity].
+        destruct (lt1_cotrans _ _ b E') as [H|H]; congruence.
+      + eapply lt2_trans; eassumption.
+  Qed.
+
+  Lemma lex_cotrans a b c : lex a b = true -> lex a c = true \/ lex c b = true.
+  Proof.
+    rewrite !lex_spec. intros [H|[H1 [H2 H3]]].
+    - destruct (lt1_cotrans _ _ c H) as [H'|H']; [left|right]; left; exact H'.
+    - destruct (lt1 a c) eqn:Eac; [left; left; reflexivity|].
+      destruct (lt1 c b) eqn:Ecb; [right; left; reflexivity|].
+      destruct (lt1 c a) eqn:Eca.
+      { destruct (lt1_cotrans _ _ b Eca) as [H|H]; congruence. }
+      destruct (lt1 b c) eqn:Ebc.
+      { destruct (lt1_cotrans _ _ a Ebc) as [H|H]; congruence. }
+      destruct (lt2_cotrans _ _ c H3) as [H|H]; [left|right]; right; auto.
+  Qed.
+
+  Lemma eqv_lex a b : eqv lex a b = true -> eqv lt1 a b = true /\ eqv lt2 a b = true.
+  Proof.
+    unfold eqv, lex. rewrite !andb_true_iff, !negb_true_iff, !orb_false_iff.
+    intros [[H1 H2] [H3 H4]]. rewrite H1, H3 in *. cbn in *. auto.
+  Qed.
+
+  Lemma strongly_sorted_snoc (R : A -> A -> Prop) l x :
+    StronglySorted R (l ++ [x]) -> StronglySorted R l /\ Forall (fun y => R y x) l.
+  Proof.
+    induction l as [|y l IH]; cbn; intros H; [split; constructor|].
+    inversion H as [|? ? Hs Hall]; subst. destruct (IH Hs) as [IH1 IH2].
+    rewrite Forall_forall in Hall. split.
+    - constructor; [exact IH1|]. rewrite Forall_forall. intros z Hz. apply Hall. apply in_or_app. left. exact Hz.
+    - constructor; [|exact IH2]. apply Hall. apply in_or_app. right. left. reflexivity.
+  Qed.
+
+  (* a stable sort by [lt1] of a list that is in [lt2] order = the sort with the tie-break *)
+  Theorem sort_by_tiebreak l :
+    StronglySorted (fun a b => lt2 a b = true) l -> sort_by lt1 l = sort_by lex l.
+  Proof.
+    induction l as [|x l IH] using rev_ind; intros Hs; [reflexivity|].
+    apply strongly_sorted_snoc in Hs. destruct Hs as [Hs Hall].
+    rewrite !sort_by_snoc, (IH Hs). apply insert_sorted_ext_in.
+    intros y Hy. assert (Hy' : In y l) by (eapply Permutation_in; [apply sort_by_perm|exact Hy]).
+    rewrite Forall_forall in Hall. specialize (Hall y Hy').
+    unfold lex. replace (lt2 x y) with false; [rewrite andb_false_r, orb_false_r; reflexivity|].
+    symmetry. destruct (lt2 x y) eqn:E; [|reflexivity].
+    pose proof (lt2_trans _ _ _ Hall E) as H. rewrite lt2_irrefl in H. discriminate.
+  Qed.
+End Lex.
+
+(* Go's string order is a strict total order *)
+Open Scope Z_scope.
+Lemma str_ltb_irrefl a : str_ltb a a = false.
+Proof. unfold str_ltb. rewrite str_cmp_refl. reflexivity. Qed.
+
+Lemma str_ltb_trans a b c : str_ltb a b = true -> str_ltb b c = true -> str_ltb a c = true.
+Proof.
+  unfold str_ltb. intros H1 H2.
+  destruct (str_cmp a b) eqn:E1; try discriminate. destruct (str_cmp b c) eqn:E2; try discriminate.
+  rewrite (str_cmp_lt_trans _ _ _ E1 E2). reflexivity.
+Qed.
+
+Lemma str_ltb_total a b : str_ltb a b = false -> str_ltb b a = false -> a = b.
+Proof.
+  unfold str_ltb. intros H1 H2. rewrite (str_cmp_antisym a b) in H2.
+  destruct (str_cmp a b) eqn:E; cbn in *; try discriminate.
+  apply str_cmp_eq. exact E.
+Qed.
+
+Lemma str_eqb_false a b : str_eqb a b = false <-> a <> b.
+Proof.
+  split.
+  - intros H E. apply str_eqb_eq in E. congruence.
+  - intros H. destruct (str_eqb a b) eqn:E; [|reflexivity]. apply str_eqb_eq in E. contradiction.
+Qed.
+
